@@ -33,7 +33,9 @@ BindOut(x, h) == /\ \A p \in sem : p[1] = OKey(x) => p[2] = h
 KcvOK == E.kcv = E.kcvref
 
 TReset    == IsEv("Reset") /\ key' = [i \in 1 .. MaxK |-> NoKey] /\ blob' = [i \in 1 .. MaxB |-> NoBlob] /\ nk' = 0 /\ nb' = 0
-             /\ tbl' = <<>> /\ out' = Out("none", 0, 0, 0, 0) /\ bn' = E.b /\ cfg' = E.cfg /\ UNCHANGED sem
+             /\ tbl' = <<>> /\ out' = Out("none", 0, 0, 0, 0) /\ bn' = E.b /\ cfg' = E.cfg
+             \* the executions of one behaviour (one per configuration) are adjacent: its bytes are kept until the next one
+             /\ sem' = IF E.b = bn THEN sem ELSE {}
 \* a mechanism the configuration advertises works (C20 compares what every configuration advertises)
 TProbe    == IsEv("Probe") /\ UNCHANGED <<vars, sem>> /\ Keep
              /\ (E.advertised /\ ~E.works => "AdvertisedButUnusable" \in Dev /\ PrintT(<<"DEV", bn, "AdvertisedButUnusable">>))
